@@ -32,6 +32,7 @@ type c07DB struct {
 	setKey  common.Hash
 	setVal  common.Hash
 	nsets   int
+	lastRevert int
 }
 
 func (d *c07DB) CreateAccount(common.Address)             { d.mutations++ }
@@ -55,7 +56,9 @@ func (d *c07DB) GetCodeSize(a common.Address) int {
 	}
 	return int(vs.U32("db.codesize"))
 }
-func (d *c07DB) AddRefund(n uint64)                       { d.mutations++; d.refunds += n }
+// the refund counter is transaction bookkeeping, not world state: gasSStore bumps it while
+// pricing the instruction, before the out-of-gas check; a failing frame's snapshot revert undoes it
+func (d *c07DB) AddRefund(n uint64) { d.refunds += n }
 func (d *c07DB) GetRefund() uint64                        { return vs.U64("db.refund") }
 func (d *c07DB) GetState(a common.Address, k common.Hash) (h common.Hash) {
 	if d.det {
@@ -73,7 +76,7 @@ func (d *c07DB) Suicide(common.Address) bool                        { d.mutation
 func (d *c07DB) HasSuicided(common.Address) bool                    { return vs.Bool("db.hassuicided") }
 func (d *c07DB) Exist(common.Address) bool                          { return vs.Bool("db.exist") }
 func (d *c07DB) Empty(common.Address) bool                          { return vs.Bool("db.empty") }
-func (d *c07DB) RevertToSnapshot(int)                               { d.reverts++ }
+func (d *c07DB) RevertToSnapshot(id int)                            { d.reverts++; d.lastRevert = id }
 func (d *c07DB) Snapshot() int                                      { d.snaps++; return d.snaps }
 func (d *c07DB) AddLog(l *types.Log)                                { d.mutations++; d.nlogs++; d.lastLog = l }
 func (d *c07DB) AddPreimage(common.Hash, []byte)                    {}
@@ -234,7 +237,12 @@ func VerifC07_Step() {
 		return
 	}
 	// the quick tier skips the middle members of the PUSH/DUP/SWAP families (same code, different constant)
+	// and the instructions whose symbolic copy windows dominate solver time (thorough tier only)
 	if vs.Param("families") == 0 {
+		switch opc {
+		case EXP, SHA3, CALLDATACOPY, CODECOPY, EXTCODECOPY, RETURNDATACOPY:
+			return
+		}
 		if (opc > PUSH1 && opc < PUSH32 && opc != PUSH2) || (opc > DUP1 && opc < DUP16) || (opc > SWAP1 && opc < SWAP16) {
 			return
 		}
